@@ -71,7 +71,7 @@ Proof.
     assert (GE : gmap nsF = gmap ns) by reflexivity.
     assert (FL : flight nsF = None) by (simpl; auto).
     split; [|left; auto].
-    constructor; intros; unfold flag, live, tfacts in *.
+    constructor; intros; unfold tfacts, flag, live in *.
     + rewrite FE. apply LE in H. destruct H. auto.
     + rewrite !FE in *. eauto.
     + rewrite FE in H. rewrite GE, FL.
@@ -95,7 +95,7 @@ Proof.
     assert (E1 : ns1 = set_gmap ns None /\ r' = r /\ d' = DRemove) by (inversion S; auto).
     destruct E1 as (-> & -> & ->).
     split; [|left; auto].
-    constructor; intros; unfold flag, live, tfacts in *; simpl pf in *; simpl flight in *; simpl gmap in *.
+    constructor; intros; unfold tfacts, flag, live in *; simpl pf in *; simpl flight in *; simpl gmap in *.
     + auto.
     + eauto.
     + assert (p0 = p) by eauto. subst. right; right; left. exists i, DRemove. apply RI; auto.
@@ -117,7 +117,7 @@ Proof.
     { destruct ok; inversion S; auto. }
     destruct E1 as (-> & -> & ->).
     split; [|right; left; auto].
-    constructor; intros; unfold flag, live, tfacts in *; simpl pf in *; simpl flight in *; simpl gmap in *.
+    constructor; intros; unfold tfacts, flag, live in *; simpl pf in *; simpl flight in *; simpl gmap in *.
     + auto.
     + eauto.
     + assert (p0 = p) by eauto. subst. right; right; left. exists i, (DClear (negb ok)). apply RI; auto.
@@ -129,7 +129,8 @@ Proof.
     + apply RS in H; auto. apply RS in H0; auto. destruct H, H0. congruence.
     + unfold efacts. simpl flight. rewrite F. exact I.
     + exfalso. destruct H as [(q & A)|[(pc & A & B)|(j & q & e & A & B)]].
-      * assert (q = p) by (apply hP2; auto). subst. rewrite LP in A; [discriminate|discriminate].
+      * assert (A' : p_live (pf ns q) = true) by exact A. assert (q = p) by (apply hP2; auto). subst.
+        rewrite LP in A'; [discriminate|discriminate].
       * simpl flight in A. congruence.
       * apply RS in A; auto. destruct A as (_ & _ & ->). discriminate.
   - (* DClear: activated=false *)
@@ -149,7 +150,7 @@ Proof.
       assert (q = p) by (apply hP2; auto). contradiction. }
     assert (FL : flight nsF = None) by (simpl; auto).
     split; [|left; auto].
-    constructor; intros; unfold flag, live, tfacts in *.
+    constructor; intros; unfold tfacts, flag, live in *.
     + exfalso; eapply LE; eauto.
     + exfalso; eapply FE; eauto.
     + exfalso; eapply FE; eauto.
